@@ -63,9 +63,15 @@ def repo_site(exc):
     return site
 
 
+_symseq = [None]
+
+
 def _model_data(J, model, x=None, xo=None):
     C = replay.concretize_inst(J, model)
     d = {'inst': replay.inst_to_data(C)}
+    if _symseq[0] is not None:
+        # symbolic multipliers: the counterexample carries their concrete values
+        d['seq'] = [(c, [int(replay.mval(model, a)) for a in args]) for c, args in _symseq[0]]
     if x is not None:
         d['x'] = [[s, p, int(replay.mval(model, v))] for (s, p), v in x.items()]
     if xo is not None:
@@ -79,6 +85,8 @@ def analyse(task):
     flags = set(task['flags'])
     seq = [(c, list(a)) for c, a in task['seq']]
     forms = task['forms']
+    if task.get('symmult') and 'opt' in forms:
+        raise ValueError('symbolic multipliers are only supported in the valid / feas / noexc forms')
     pc_flag, stab = 'pc' in flags, 'stab' in flags
     res = {'obligations': 0, 'discharged': 0, 'unknown': 0, 'cex': [], 'queries': 0,
            'solver_time': 0.0, 'paths': 0, 'nontrivial': 0, 'controls': {}}
@@ -88,7 +96,27 @@ def analyse(task):
     numerics = None
     if task.get('num'):
         numerics = (I.with_numerics(*task['num']), [], [])
-    paths = E.explore(lambda: e2.run_e2(I, flags, seq, argv_seq=task.get('argv_seq'), numerics=numerics))
+    _symseq[0] = None
+
+    def body():
+        e = S.engine()
+        seq2 = seq
+        if task.get('symmult'):
+            # multipliers of the cost criteria are symbolic integers >= 0 (quantifier-light forms only)
+            seq2 = []
+            for c, a in seq:
+                args = []
+                for v in a:
+                    if v == 'sym':
+                        y = e.fresh_int('mult')
+                        e.assume(y >= 0)
+                        args.append(y.t)
+                    else:
+                        args.append(v)
+                seq2.append((c, args))
+        e.notes['seq2'] = seq2
+        return e2.run_e2(I, flags, seq2, argv_seq=task.get('argv_seq'), numerics=numerics)
+    paths = E.explore(body)
     res['paths'] = len(paths)
     res['queries'] += E.stats['solver_queries']
     res['solver_time'] += E.stats['solver_time']
@@ -165,6 +193,7 @@ def analyse(task):
             continue
         run = p.result
         J = run.inst
+        _symseq[0] = p.notes.get('seq2') if task.get('symmult') else None
         if 'twopl' not in flags and J.lprefs is not None:
             # without the two-sided flag second-side lists in the file are ignored
             J = spec.Inst(J.na, J.ns, J.np, J.nl, J.prefs, J.plec, None,
